@@ -81,10 +81,12 @@ def make(pid, cfg, violations, results):
             witness = fd['witness']
     mode = cfg.get('replay_mode')
     if witness is None and mode and os.environ.get('VERIF_NO_REPLAY') != '1':
-        search = run_harness(mode)
+        # properties with a known finding on the shipped code (K1) search with the repair hook ON, so that the known
+        # finding's own witnesses cannot confirm an unrelated failed obligation
+        search = run_harness(mode, hooks=bool(cfg.get('replay_hooks')))
         if search['found']:
             witness = search['witness']
-    doc = {'property': pid, 'failed_obligations': obl, 'replay_mode': mode,
+    doc = {'property': pid, 'failed_obligations': obl, 'replay_mode': mode, 'replay_hooks': bool(cfg.get('replay_hooks')),
            'failing_input': witness, 'search': search,
            'note': 'failing_input is a concrete input replayed on the real crate; null means the bounded search found none '
                    '(the failed obligation above is still the reported violation)'}
@@ -108,7 +110,7 @@ def rerun(path):
     if not mode:
         print('no executable replay for this property; see the recorded verifier output')
         return 1
-    r = run_harness(mode)
+    r = run_harness(mode, hooks=bool(doc.get('replay_hooks')))
     print(r['log'][-3000:])
     if r['found']:
         print('REPRODUCED', r['witness'])
